@@ -5,7 +5,11 @@
 // Part 2 (locks): two or three ChordStorage instances share one MemoryKV through a recording wrapper that
 // logs every lease call (Acquire/Renew/Release) with the wall-clock window around it; Lock/Unlock markers
 // are logged in the same total order. Real time is involved (lease TTL 1–2 s, renewal at ttl/4); every
-// verdict is computed from the OBSERVED tokens/times, never from an expected schedule.
+// verdict is computed from the OBSERVED tokens/times, never from an expected schedule. Scenarios: contention
+// longer than the TTL (ticker renewals), injected renewal failure with take-over and stale unlock, and explicit
+// RenewLockLease calls (various duration arguments, by holders and non-holders) followed by a hold longer than
+// the lease while another instance contends. A heartbeat goroutine witnesses that the process was never stalled
+// for a sizeable part of a lease (a stalled run says nothing about the storage and is repeated).
 package main
 
 import (
@@ -350,6 +354,32 @@ func (in *inst) unlock(key string) {
 	in.log.mu.Unlock()
 }
 
+// renewLock brackets an explicit RenewLockLease(key, dur) call with markers; the KV renewal it makes is
+// recorded by recKV in between.
+func (in *inst) renewLock(key string, dur time.Duration) {
+	in.log.mu.Lock()
+	in.log.add(hlib.F("renewing %d %s %d %d", in.id, hlib.HexS(kvPrefix+key), int64(dur), now()), "-")
+	in.log.mu.Unlock()
+	res := guard(func() string {
+		err := in.st.RenewLockLease(context.Background(), key, dur)
+		switch {
+		case err == nil:
+			return "ok"
+		case errors.Is(err, chord.ErrKVLeaseExpired):
+			return "expired"
+		case errors.Is(err, chord.ErrKVLeaseInvalidTTL):
+			return "invalidttl"
+		case strings.Contains(err.Error(), "not a lease holder"):
+			return "notholder"
+		default:
+			return "err"
+		}
+	})
+	in.log.mu.Lock()
+	in.log.add(hlib.F("renewedlock %d %s %d %d", in.id, hlib.HexS(kvPrefix+key), int64(dur), now()), res)
+	in.log.mu.Unlock()
+}
+
 func mkInsts(n int, ttl time.Duration, log *lockLog, kv chord.KV, base int) []*inst {
 	res := make([]*inst, n)
 	for i := range res {
@@ -398,7 +428,76 @@ func scenarioExpiry(log *lockLog, kv chord.KV, key string, base int) {
 	ins[1].unlock(key)
 }
 
-func runLocksCollect(thorough bool, rng *hlib.Rng) *lockLog {
+// explicit renewal: instance 0 takes the lock, extends it through RenewLockLease(key, dur) — once or twice, with
+// whatever duration the caller likes (the storage's own TTL, zero, a fraction, a non-integral or a longer one) —
+// and then keeps holding it for `hold`, longer than both the configured lease and the requested duration, with
+// nothing but the background renewals; instance 1 contends all the time and gets its turn after the unlock.
+// Non-holders call RenewLockLease too (before locking, after unlocking).
+func scenarioExplicitRenew(log *lockLog, kv chord.KV, key string, ttl time.Duration, durs []time.Duration, pause, hold time.Duration, base int) {
+	ins := mkInsts(2, ttl, log, kv, base)
+	ins[1].renewLock(key, ttl) // not a holder: no KV call
+	ins[0].lock(key)
+	for _, d := range durs {
+		time.Sleep(pause)
+		ins[0].renewLock(key, d)
+	}
+	done := make(chan struct{})
+	go func() {
+		defer close(done)
+		ins[1].lock(key)
+		ins[1].renewLock(key, ttl)
+		time.Sleep(100 * time.Millisecond)
+		ins[1].unlock(key)
+	}()
+	time.Sleep(hold)
+	ins[0].unlock(key)
+	ins[0].renewLock(key, ttl) // not a holder any more
+	<-done
+}
+
+// heartbeat measures the longest interval in which a 20 ms ticker goroutine of this process did not get to run.
+type heartbeat struct {
+	stop chan struct{}
+	done chan time.Duration
+}
+
+func startHeartbeat() *heartbeat {
+	h := &heartbeat{stop: make(chan struct{}), done: make(chan time.Duration, 1)}
+	go func() {
+		t := time.NewTicker(20 * time.Millisecond)
+		defer t.Stop()
+		last, max := time.Now(), time.Duration(0)
+		for {
+			select {
+			case <-h.stop:
+				if g := time.Since(last); g > max {
+					max = g
+				}
+				h.done <- max
+				return
+			case <-t.C:
+				n := time.Now()
+				if g := n.Sub(last); g > max {
+					max = g
+				}
+				last = n
+			}
+		}
+	}()
+	return h
+}
+
+func (h *heartbeat) maxGap() time.Duration { close(h.stop); return <-h.done }
+
+// the shortest lease used below is 1 s, renewed every 250 ms; a process stall approaching the lease can make a
+// healthy storage miss renewals, which is not a statement about the storage
+const stallLimit = 400 * time.Millisecond
+
+func durChoices(ttl time.Duration) []time.Duration {
+	return []time.Duration{ttl, 0, ttl / 2, ttl + 700*time.Millisecond, ttl - time.Second, time.Second, -time.Second}
+}
+
+func runLocksOnce(thorough bool, rng *hlib.Rng) *lockLog {
 	log := &lockLog{}
 	kv := memory.WithHashFn(chord.Hash)
 	rounds := 1
@@ -412,21 +511,61 @@ func runLocksCollect(thorough bool, rng *hlib.Rng) *lockLog {
 			n = 3
 		}
 		hold := time.Duration(2300+rng.Intn(900)) * time.Millisecond
-		wg.Add(2)
+		// explicit renewals: (1) the caller passes the storage's own TTL, once, shortly after Lock;
+		// (2) random duration arguments, one or two calls, random pause; TTL 1 s or 2 s
+		ttl2 := time.Duration(1+rng.Intn(2)) * time.Second
+		durs2 := []time.Duration{hlib.Pick(rng, durChoices(ttl2))}
+		if rng.Bool() {
+			durs2 = append(durs2, hlib.Pick(rng, durChoices(ttl2)))
+		}
+		if thorough && round%2 == 1 {
+			durs2 = append(durs2, 2*ttl2) // a longer extension than the TTL (takes longer to observe)
+		}
+		pause1 := time.Duration(50+rng.Intn(400)) * time.Millisecond
+		pause2 := time.Duration(50+rng.Intn(300)) * time.Millisecond
+		// long enough for a lease of max(ttl, requested) to run out and a contender (polling every ttl/2) to notice
+		hold1 := 2*time.Second + time.Second + 500*time.Millisecond
+		hold2 := ttl2 + ttl2/2 + 400*time.Millisecond
+		if thorough && round%2 == 1 {
+			hold2 = 2*ttl2 + ttl2/2 + 400*time.Millisecond
+		}
+		wg.Add(4)
 		go func() { defer wg.Done(); scenarioContend(log, kv, hlib.F("lockA%d", round), n, hold, 10*round) }()
 		go func() { defer wg.Done(); scenarioExpiry(log, kv, hlib.F("lockB%d", round), 10*round+5) }()
+		go func() {
+			defer wg.Done()
+			scenarioExplicitRenew(log, kv, hlib.F("lockC%d", round), 2*time.Second, []time.Duration{2 * time.Second}, pause1, hold1, 10*round+3)
+		}()
+		go func() {
+			defer wg.Done()
+			scenarioExplicitRenew(log, kv, hlib.F("lockD%d", round), ttl2, durs2, pause2, hold2, 10*round+7)
+		}()
 		wg.Wait()
 	}
 	return log
 }
 
-func emitLocks(r *hlib.Run, log *lockLog) {
+// runLocksCollect repeats a run during which the process was stalled (at most twice).
+func runLocksCollect(thorough bool, rng *hlib.Rng) (*lockLog, int) {
+	for attempt := 0; ; attempt++ {
+		hb := startHeartbeat()
+		log := runLocksOnce(thorough, rng)
+		if hb.maxGap() < stallLimit || attempt == 2 {
+			return log, attempt
+		}
+	}
+}
+
+func emitLocks(r *hlib.Run, log *lockLog, repeated int) {
+	for i := 0; i < repeated; i++ {
+		r.Count("lock:run-repeated-after-process-stall")
+	}
 	r.Raw("reset")
 	for _, l := range log.lines {
 		r.Emit(l[0], l[1])
 		op := strings.SplitN(l[0], " ", 2)[0]
 		r.Count("lock:" + op + ":" + strings.SplitN(l[1], ":", 2)[0])
-		if op == "locked" || op == "kvacq" || op == "kvrenew" || op == "kvrel" {
+		if op == "locked" || op == "kvacq" || op == "kvrenew" || op == "kvrel" || op == "renewedlock" {
 			r.Case(l[0] + "|" + l[1])
 		}
 	}
@@ -436,7 +575,7 @@ var errNotExist = fs.ErrNotExist
 
 func main() {
 	r := hlib.Start()
-	r.Rule = "file store: one case = one random history (store/load/delete/exists/stat/list) over path-like keys built from a small segment alphabet (sibling keys sharing a string prefix, nesting, 4% malformed paths, 8% empty values); non-trivial evaluation = a load/exists/stat/list with its result; locks: every recorded lease call / Lock return of 2-3 real storage instances contending over one MemoryKV in real time (contention longer than the TTL, injected renewal failure, stale unlock)"
+	r.Rule = "file store: one case = one random history (store/load/delete/exists/stat/list) over path-like keys built from a small segment alphabet (sibling keys sharing a string prefix, nesting, 4% malformed paths, 8% empty values); non-trivial evaluation = a load/exists/stat/list with its result; locks: every recorded lease call / Lock return of 2-3 real storage instances contending over one MemoryKV in real time (contention longer than the TTL, injected renewal failure, stale unlock, explicit RenewLockLease calls with various duration arguments by holders and non-holders followed by a hold longer than the lease under contention)"
 	rng := hlib.NewRng(r.Seed)
 	f := &fileRun{r: r}
 	if r.Replay != "" {
@@ -444,14 +583,15 @@ func main() {
 		locks := false
 		for _, t := range r.ReplayLines() {
 			switch t[0] {
-			case "kvacq", "kvrenew", "kvrel", "locked", "unlocking", "unlocked":
+			case "kvacq", "kvrenew", "kvrel", "locked", "unlocking", "unlocked", "renewing", "renewedlock":
 				locks = true
 			default:
 				f.op(t)
 			}
 		}
 		if locks {
-			emitLocks(r, runLocksCollect(false, rng))
+			log, rep := runLocksCollect(false, rng)
+			emitLocks(r, log, rep)
 		}
 		r.Finish()
 		return
@@ -470,11 +610,19 @@ func main() {
 		cases, nops = 12000, 60
 	}
 	// locks run concurrently with the file-store histories (they mostly sleep)
-	lockDone := make(chan *lockLog, 1)
-	go func() { lockDone <- runLocksCollect(r.Thorough(), hlib.NewRng(r.Seed+7919)) }()
+	type lockRes struct {
+		log *lockLog
+		rep int
+	}
+	lockDone := make(chan lockRes, 1)
+	go func() {
+		log, rep := runLocksCollect(r.Thorough(), hlib.NewRng(r.Seed+7919))
+		lockDone <- lockRes{log, rep}
+	}()
 	for i := 0; i < cases; i++ {
 		f.randomCase(rng, nops)
 	}
-	emitLocks(r, <-lockDone)
+	lr := <-lockDone
+	emitLocks(r, lr.log, lr.rep)
 	r.Finish()
 }
